@@ -63,6 +63,6 @@ def main():
     with open(os.path.join(HERE, "MANIFEST.json"), "w") as f:
         json.dump(m, f, indent=1)
 
-HOOK_COMMITS = []
+HOOK_COMMITS = ["ada2622", "3bcbf39", "75f978c"]
 if __name__ == "__main__":
     main()
